@@ -398,9 +398,12 @@ def solve_sat(
             add_watch(clause[0], i)
             add_watch(clause[1], i)
 
-    for var, val in find_pure_literals():
-        if vals[var] == UNDEF:
-            assign(var, val, -1)
+    # Pure literals keep satisfiability but not the set of models, and must not override an assumption
+    if solution_limit <= 1:
+        assumed_vars = {lit_var(lit) for lit in assumptions}
+        for var, val in find_pure_literals():
+            if vals[var] == UNDEF and var not in assumed_vars:
+                assign(var, val, -1)
 
     for lit, idx in unit_clauses:
         var = lit_var(lit)
